@@ -37,7 +37,9 @@ TSpec == TInit /\ [][TNext]_vars
 
 \* property codes, evaluated when the whole trace has been consumed
 AtEnd == l = Len(Tr) + 1
-Code == IF AtEnd /\ Traces[tid].end \in {"diag", "usage", "diag-malformed"} /\ (printed \/ stage > LoopFirst + 1) THEN 1
+\* (since fix ca5550e the report is printed after the loop: a diagnostic may come from setting the frequency or solving in
+\*  ANY step, the stages "fields" and "print" of a step only prepare text)
+Code == IF AtEnd /\ Traces[tid].end \in {"diag", "usage", "diag-malformed"} /\ stage > LoopFirst + 1 THEN 1
         ELSE IF AtEnd /\ Traces[tid].end = "report" /\ stage # LoopLast THEN 2
         ELSE 0
 Track == /\ TLCSet(tid, IF TLCGet(tid) < l THEN l ELSE TLCGet(tid))
